@@ -52,7 +52,7 @@ func genC18(r *Rng, tier string, o *Out) {
 					if wr.BytesWriteable() < 0 {
 						cur = "D 1"
 						rd.DiscardStride(1)
-						fmt.Fprintf(&sb, " D 1") // only after a rewind: re-empty the buffer instead
+						fmt.Fprintf(&sb, " D 1 %d", rd.BytesReadable()) // only after a rewind: re-empty the buffer instead
 						readpos = written
 						done++
 						continue
@@ -122,7 +122,7 @@ func genC18(r *Rng, tier string, o *Out) {
 					cur = fmt.Sprintf("D %d", kk)
 					rd.DiscardStride(uint64(kk))
 					readpos = np
-					fmt.Fprintf(&sb, " D %d", kk)
+					fmt.Fprintf(&sb, " D %d %d", kk, rd.BytesReadable())
 				}
 				done++
 			}
